@@ -15,13 +15,11 @@ Strings are `List Char` (`Str`).  Python semantics modelled literally:
 insertion order, exceptions = `Except Err`.  Directory listings arrive in the
 order the OS returns them (`files` of a restart is `os.listdir` order, which
 is the order `glob.glob` yields); the iteration order of a Python `set` of
-variable names is an input (`hashOrder`).  `np.linspace(a, b, n)` is modelled
-with binary64 round-to-nearest-even arithmetic on rationals, because the code
-uses it as a membership test.
+variable names is an input (`hashOrder`).
 
 Not modelled: non-ASCII digits accepted by `int()`/`\d`; `repr` of
-non-printable code points above U+00FF; glob metacharacters (`*?[`) in the
-simulation path; unreadable HDF5 files (OSError branch); JSON text of
+non-printable code points above U+00FF; unreadable HDF5 files (OSError branch)
+(the simulation path is `glob.escape`d in the code, so the listings are literal); JSON text of
 `content.txt` is printed (`jsonDump`) but loading it back is taken to be the
 inverse of dumping (the cache state is the dumped dictionary).
 -/
@@ -376,54 +374,13 @@ def formatCheckpoint (it : Nat) (chunk : Option Nat) : Str :=
     ++ (match chunk with | some c => ['.', 'f', 'i', 'l', 'e', '_'] ++ toDec c | none => [])
     ++ ['.', 'h', '5']
 
-/-! ## 4. binary64 arithmetic for `np.linspace` -/
+/-! ## 4. `x in range(int(a), int(b) + 1, int(d))` -/
 
-def pow2 (e : Int) : Rat := if e ≥ 0 then ((2 ^ e.toNat : Nat) : Rat) else 1 / ((2 ^ (-e).toNat : Nat) : Rat)
-
-/-- round to nearest, ties to even, 53 significant bits (normal range only) -/
-def rne53 (q : Rat) : Rat :=
-  if q == 0 then 0 else
-  let neg := q < 0
-  let a : Rat := if neg then -q else q
-  let n := a.num.toNat
-  let d := a.den
-  let l : Int := (Nat.log2 n : Int) - (Nat.log2 d : Int) - 52
-  -- the exponent `e` with 2^52 ≤ a / 2^e < 2^53 is one of l-1, l, l+1
-  let pick (e : Int) : Bool :=
-    let s := a / pow2 e
-    decide (((2 ^ 52 : Nat) : Rat) ≤ s) && decide (s < ((2 ^ 53 : Nat) : Rat))
-  let e := if pick (l - 1) then l - 1 else if pick l then l else l + 1
-  let s := a / pow2 e
-  let m : Int := s.floor
-  let r := s - (m : Rat)
-  let half : Rat := 1 / 2
-  let m' : Int := if r > half then m + 1 else if r == half then (if m % 2 == 0 then m else m + 1) else m
-  let v := (m' : Rat) * pow2 e
-  if neg then -v else v
-
-/-- the array `np.linspace(a, b, num)` (exact rational values of the doubles);
-`none` = ValueError (negative `num`) -/
-def linspace (a b num : Int) : Option (List Rat) :=
-  if num < 0 then none else
-  let n := num.toNat
-  let start : Rat := rne53 a
-  let stop : Rat := rne53 b
-  let delta := rne53 (stop - start)
-  let div : Int := num - 1
-  let ys : List Rat :=
-    if div > 0 then
-      let step := rne53 (delta / (div : Rat))
-      (List.range n).map fun (i : Nat) =>
-        if step == 0 then rne53 (rne53 ((i : Rat) / (div : Rat)) * delta) else rne53 ((i : Rat) * step)
-    else (List.range n).map fun (i : Nat) => rne53 ((i : Rat) * delta)
-  let ys := ys.map fun y => rne53 (y + start)
-  some (if n > 1 then ys.take (n - 1) ++ [stop] else ys)
-
-/-- `x in np.linspace(a, b, num)` -/
-def linMem (x a b num : Int) : Except Err Bool :=
-  match linspace a b num with
-  | some ys => .ok (ys.any fun y => y == (x : Rat))
-  | none => .error .valueError
+/-- membership test of `collect_overall_iterations`; `range` with step 0 raises ValueError -/
+def rangeMem (x a b d : Int) : Except Err Bool :=
+  if d == 0 then .error .valueError
+  else if d > 0 then .ok (decide (a ≤ x) && decide (x < b + 1) && (x - a) % d == 0)
+  else .ok (decide (x ≤ a) && decide (b + 1 < x) && (a - x) % (-d) == 0)
 
 /-! ## 5. The catalogue structure -/
 
@@ -517,7 +474,8 @@ def setEntry (st : Cat × Option Int) (k : Str) (v : Val) : Except Err (Cat × O
 
 /-- one iteration of the `for li in lines` loop -/
 def stepLine (st : Cat × Option Int) (li : Str) : Except Err (Cat × Option Int) :=
-  if isInfix mRestart li then do
+  if sReading.isPrefixOf li || sNoData.isPrefixOf li then pure st   -- lines that only report a path
+  else if mRestart.isPrefixOf li then do
     let n ← pyIntE (← idx (split mRestart li) 1)
     pure (dset st.1 n [], some n)
   else if isInfix mVars li then do
@@ -561,7 +519,7 @@ def readIterationsText (contents : Str) : Except Err Cat :=
 
 /-- `restarts_done` of `iterations()` -/
 def restartsDone (contents : Str) : Except Err (List Int) :=
-  ((split ['\n'] contents).filter (isInfix mRestart)).mapM fun line =>
+  ((split ['\n'] contents).filter (fun line => mRestart.isPrefixOf line)).mapM fun line =>
     do pyIntE (← idx (split mRestart line) 1)
 
 /-! ## 7. `collect_overall_iterations` -/
@@ -569,7 +527,7 @@ def restartsDone (contents : Str) : Except Err (List Int) :=
 def idxI (l : List Int) (i : Nat) : Except Err Int := idx l i
 
 /-- one restart's segment merged into `it_situation`; `mem x a b n` is the
-test the code writes as `x in np.linspace(a, b, n)` -/
+test the code writes as `x in range(int(a), int(b) + 1, int(n))` -/
 def mergeStep (mem : Int → Int → Int → Int → Except Err Bool)
     (sit : List (List Int)) (cur : List Int) : Except Err (List (List Int)) :=
   match sit.getLast? with
@@ -634,7 +592,7 @@ def overallWith (mem : Int → Int → Int → Int → Except Err Bool) (cat : C
       else pure ov) [] (List.range (rlmax.toNat + 1))
 
 /-- `collect_overall_iterations` as the code is written -/
-def overall (cat : Cat) : Except Err (List (Str × List (List Int))) := overallWith linMem cat
+def overall (cat : Cat) : Except Err (List (Str × List (List Int))) := overallWith rangeMem cat
 
 /-! ## 8. Directory description, `get_content` -/
 
@@ -695,7 +653,7 @@ def strJoin (sep : Str) (l : List Str) : Str := joinSep sep l
 
 /-- the scan branch of `get_content` -/
 def scanContent (T : Tables) (path : Str) (files : List H5File) : VarsAndFiles :=
-  let h5 := (globH5 files).filter fun f => !isInfix sChkpt (path ++ f.name)
+  let h5 := (globH5 files).filter fun f => !isInfix sChkpt (basename (path ++ f.name))
   let step (st : List (Str × List Str) × List (Str × List Str)) (f : H5File) :=
     let filepath := path ++ f.name
     match parseH5File filepath with
